@@ -115,6 +115,7 @@ def run(ctx):
         s = corpus.rand_spec(rng, NONCONVEX + CONVEX, nmax=8, allow_target=False, allow_cb=False)
         s["kwargs"]["maxls"] = int(rng.integers(1, 21))
         dspecs.append(s)
+    dspecs += corpus.scripted_specs(rng, exhaustive_len=2, n_random=ctx.pick(200, 2000))
     drivercheck.run_traces(ctx, dspecs, PREFIX)
     return ctx.finish("model_checking", RULE)
 
